@@ -200,7 +200,7 @@ func run(a hx.RunArgs) error {
 	r := hx.NewRand(a.Seed).Fork() // (hx.NewRand(s+1) is hx.NewRand(s) advanced by one draw: fork to decorrelate seeds)
 	nDb, perDb := 60, 12
 	if a.Thorough {
-		nDb, perDb = 2500, 16
+		nDb, perDb = 900, 16
 	}
 	rn := sqlgen.Runner{Out: out, Tag: "c02"}
 	// corpus first
